@@ -13,6 +13,7 @@ from __future__ import annotations
 import itertools
 import os
 
+import re
 from .. import core, refcpp
 from ..core import Acc, Violation
 from ..driver import worker_scratch
@@ -157,10 +158,10 @@ def _max_depth(directives):
     return m
 
 
-def cond_case(job, acc: Acc):
+def cond_case(job, acc: Acc, init_sets=None, family="conditionals", extra_tags=None):
     directives = job
     lines = render(directives)
-    for defs in INIT_SETS:
+    for defs in (INIT_SETS if init_sets is None else init_sets):
         try:
             ref_active, ref_defs = refcpp.run(lines, defs)
         except refcpp.Invalid:
@@ -186,10 +187,54 @@ def cond_case(job, acc: Acc):
             obs, exp, seen = "macro_table", ref_defs, got_defs
         if obs:
             acc.violation(Violation(
-                "conditionals", {"family": "conditionals", "obs": obs, **features(directives)},
+                family, {"family": family, "obs": obs, **features(directives), **(extra_tags or {})},
                 {"lines": lines, "defs": defs}, exp, seen, what=f"{list(directives)} defs={defs}"))
     if len(acc.samples) < 2:
         acc.sample({"skeleton": list(directives), "init_defs": INIT_SETS[2]})
+
+
+# ------------------------------------------------------- expression values
+# A macro whose value is an expression of several tokens is substituted token by token; operator precedence applies
+# to the *result* (`#define V 1 + 1`, `#if V * 4 == 5` is 1 + 1*4 == 5: true).  Values x conditions x the two ways of
+# defining V (a directive, the pp_defs option) x directly / through a second macro.
+VALUE_EXPRS = ["1", "2", "1 + 1", "2 - 1", "0 || 1", "1 && 0", "1 == 2", "2 > 1", "(1 + 1)", "- 1", "! 0", "3 % 2", "B", "B + 1"]
+VALUE_CONDS = ["V", "!V", "! V == 0", "V * 2 == 3", "V * 4 == 5", "8 - V == 5", "6 / V == 7", "V && 0", "1 || V", "V == 0",
+               "0 == V", "2 == V", "V > 1", "3 - V - 1 == 2", "- V == - 2", "V % 2 == 1", "(V) * 2 == 4", "defined(V) && V"]
+
+
+def value_jobs():
+    for val in VALUE_EXPRS:
+        for cond in VALUE_CONDS:
+            for via in ("define", "pp_defs"):
+                for through in (False, True):
+                    yield (val, cond, via, through)
+
+
+def value_case(job, acc: Acc):
+    val, cond, via, through = job
+    d = []
+    if via == "define":
+        d.append(f"#define V {val}")
+    if through:
+        d.append("#define W V")
+        cond = re.sub(r"\bV\b", "W", cond) if "defined" not in cond else cond
+    d += [f"#if {cond}", "#define R 1", "#else", "#define R 2", "#endif"]
+    inits = [{"B": "2"}, {}] if via == "define" else [{"V": val, "B": "2"}, {"V": val}]
+    lines = render(tuple(d))
+    for defs in inits:
+        try:
+            ref_active, _ = refcpp.run(lines, defs)
+        except refcpp.Invalid:
+            continue
+        gnu = refcpp.gnu_cpp_active(lines, defs)
+        if gnu is not None:
+            want = [a for a, ln in zip(ref_active, lines) if not ln.startswith("#")]
+            have = [a for a, ln in zip(gnu, lines) if not ln.startswith("#")]
+            if want != have:
+                raise core.HarnessError(f"refcpp disagrees with GNU cpp on {lines} defs={defs}: {want} vs {have}")
+            acc.count("agrees_with_gnu_cpp")
+    cond_case(tuple(d), acc, init_sets=inits, family="expression_values",
+              extra_tags={"value_tokens": len(val.split()), "via": via, "through_second_macro": through})
 
 
 # ---------------------------------------------------------------- includes
@@ -408,6 +453,9 @@ def main(ctx):
     ctx.states = len(acc.states | sacc0.states)
     ctx.transitions = acc.counters.get("transitions", 0) + sacc0.counters.get("transitions", 0)
     ctx.traces_validated = acc.counters.get("paths_replayed", 0) + sacc0.counters.get("paths_replayed", 0)
+    vacc = core.pmap(value_case, list(value_jobs()), chunk=16, budget_s=120, label="C08/values")
+    ctx.add_family("expression_values", vacc, values=len(VALUE_EXPRS), conditions=len(VALUE_CONDS),
+                   what="V defined by a directive or by pp_defs, used directly or through #define W V")
     iacc = core.pmap(include_case, include_jobs(5 if q else 6), chunk=128, budget_s=120, label="C08/includes")
     ctx.add_family("includes", iacc, what="sequences of <= %d items over #define/#undef of W, #include of three headers (one nested, one that "
                    "undefines) and two probe blocks; reference refcpp with in-place header processing" % (5 if q else 6))
@@ -431,7 +479,7 @@ def replay(rec):
     if rec["family"] == "includes":
         include_case(tuple(c["combo"]), acc)
         return [v.to_json("C08") for v in acc.violations] or None
-    if rec["family"] == "conditionals":
+    if rec["family"] in ("conditionals", "expression_values"):
         lines, defs = c["lines"], c["defs"]
         ref_active, ref_defs = refcpp.run(lines, defs)
         names, got_defs, _, skipped = impl_run(lines, defs)
